@@ -143,6 +143,14 @@ CLAIMED['C01'] = dict(
     technique='bounded stand-in at the property level: generated (text, meaning) pairs through the real parser, resolve_self and encoder for nine negotiated session kinds against an RFC reference decoder; ' + PYVC + ' on the TLV header, ADD-PATH adjustment and AS-number width',
 )
 
+CLAIMED['C15'] = dict(
+    category='exploration',
+    text='BOUNDED at the property level, with deductive obligations on leaf encoders. (corpus-roundtrip) every distinct NLRI (~200, 16 families: unicast, labelled, VPN, flow, flow-vpn, mcast-vpn, MUP, SR-policy, BGP-LS, EVPN, VPLS) and every attribute collection of the UPDATEs recorded under /repo/qa, decoded by the real decoders, re-encoded by the real encoders, decoded again: equal object, equal hash and index, same bytes on the second encoding, same str()/json(); attributes on an iBGP 4-byte session (only the mandatory defaults may be added). (equality-hash-index) each corpus NLRI with 8 (thorough 24) one-bit variants of its encoding that still decode, all pairs: a == b implies equal hash and equal index; prefix-like routes that differ in family, path identifier, prefix or RD never share an index. (factory-pairs) EVPN MAC/IP routes from MAC.make_mac with one and two labels, varying ESI: round trip and all pairs. (aspath-roundtrip) small-scope exhaustive: every canonical AS path of up to 2 (thorough 3) segments over 2- and 4-byte AS numbers x 4-byte and 2-byte sessions through ASPath.pack_attribute and AttributeCollection.unpack (AS4_PATH merge). Deductive (z3, all inputs), shared with C01 / C16: Attribute._attribute, INETBase / LabelBase / IPVPNBase.pack_nlri, ASN.pack_asn, the FlowSpec length and operator encoders and decoders (Flow._encode_length, IOperation*.encode, CommonOperator, _parse_operations).',
+    note='Exploration level. One recorded known finding (region C15-mvpn-eq-narrower-than-index: MVPN route types 5/6/7 compare equal with different indexes; the repair breaks an existing test). Families with no example in the QA corpus (RTC, MVPN types other than 5/6/7, some BGP-LS TLVs) and attribute values not present in it (PMSI, tunnel encapsulation variants) are not exercised; text renderings are compared between two decodes only, not against a specification. Six genuine defects repaired (b67d2c7, a5ac5e4, 6b728dd, 48c071e, and the AS4_PATH merge).',
+    ref='DESIGN.md §6 C15, §11.15',
+    technique='bounded stand-in at the property level: QA-corpus round trips, one-bit variants for equality / hash / index consistency, factory-built routes, small-scope exhaustive AS paths; ' + PYVC + ' on leaf encoders',
+)
+
 NOT_YET = 'check not built yet in this session (planned in DESIGN.md §6); not claimed until its obligations are discharged'
 NA = {}
 
